@@ -315,6 +315,8 @@ func sigKind(kind string) string {
 		return "remove-zeroed"
 	case "pl-remove-zero-partial-only":
 		return "pl-remove-zeroed-only"
+	case "remove-zero-partial-only":
+		return "remove-zeroed-only"
 	case "full-noindex-rolled":
 		return "full-noindex"
 	case "full-indexed-rolled":
@@ -454,9 +456,6 @@ func (o *oracle) continueHistory(ck *sto.Checker, variant int) {
 	o.remove(ck, nh+1)
 	o.receive(ck, nh)   // duplicate
 	o.receive(ck, nh+1) // re-receive after remove
-	if !last.Recv && variant%2 == 1 {
-		o.receive(ck, last.B) // finally bring the re-removed blob back
-	}
 }
 
 // streamCheck audits blobserver.BlobStreamer: every streamed blob must be known, allowed to be
